@@ -640,6 +640,15 @@ def render_layout(stmts, seed, file_index, opts=None):
             text = text + _ws(rng, opts, 1 if not opts.get('ws') else rng.choice([0, 1, 2])) + nxt
             i += 1
             k = stmts[i][0]
+        # a statement behind a zone directive (or an origin that names its zone) on the same line is assembled where the
+        # directive says (the expression of an origin without zone name would swallow whatever follows it)
+        if opts.get('compound') and k in ('org', 'memzone') and i + 1 < n and rng.random() < 0.3:
+            nk = stmts[i + 1][0]
+            named = k == 'memzone' or (len(st) > 2 and st[2])
+            if named and nk in ('instr', 'asm', 'data', 'fill', 'zero', 'zerountil', 'str'):
+                text = text + _ws(rng, opts, 1) + layout_stmt(rng, opts, stmts[i + 1])
+                i += 1
+                k = stmts[i][0]
         # consecutive instructions on one line
         while opts.get('compound') and k in ('instr', 'asm') and i + 1 < n and stmts[i + 1][0] in ('instr', 'asm') and rng.random() < 0.3:
             text = text + _ws(rng, opts, 1) + layout_stmt(rng, opts, stmts[i + 1])
